@@ -628,6 +628,36 @@ def text_methods_use_chars(ctx, rule):
                              % (name, ".".join(arr[2]) if arr else "another array", t["rcn"].rsplit("::", 1)[-1]),
                              {"witness": "German 'Fuß': the NUL padding after 'ß' is stripped as trailing junk / the stemmer sees 'ß\\0'"})
     ctx.floor(rule, "word_method_calls_from_text", n, 4)
+    # set_char_classes classifies the *normalised* characters (the class tables list folded, lower-case letters)
+    b = tm.get("set_char_classes")
+    if b is not None:
+        key = "chars-arg:set_char_classes"
+        srcs = set()
+        for b2 in [b] + U.nested_closures(ctx, b):
+            sy = ctx.sym(b2)
+            for bi, t in b2.calls():
+                if (t.get("rcn") or "").endswith("Lang::get_char_class") or (t.get("cn") or "").endswith("CharPattern::matches"):
+                    ch = t["args"][1] if len(t["args"]) > 1 else None
+                    if ch is None:
+                        continue
+                    _, e_ = U.out_of_closure(ctx, b2, sy.operand(ch))
+                    for x in S.walk(e_):
+                        if isinstance(x, tuple) and x and x[0] == "field" and len(x) > 3 and str(x[2]) in ("chars", "source") and \
+                                (x[3] or "").endswith("text::Text"):
+                            srcs.add(str(x[2]))
+                    if b2.kind == "closure":
+                        _, it_ = U.closure_param_item(ctx, b2)
+                        for x in S.walk(it_ or ()):
+                            if isinstance(x, tuple) and x and x[0] == "field" and str(x[2]) in ("chars", "source"):
+                                srcs.add(str(x[2]))
+        if srcs == {"chars"}:
+            ctx.ok(rule, key, b.where(), "set_char_classes classifies self.chars (the normalised characters)", nontrivial=True)
+        elif "source" in srcs:
+            ctx.fail(rule, key, b.where(), "set_char_classes classifies the original `source` characters instead of the normalised `chars`: "
+                     "an accented letter gets no language class and its typo costs differ from the folded spelling",
+                     {"witness": "German store with 'Rock': query 'Rack' finds it, 'Räck' does not"})
+        else:
+            ctx.fail(rule, key, b.where(), "cannot see which array set_char_classes classifies (%s; fail closed)" % sorted(srcs))
 
 
 def punctuation_table(ctx, rule):
